@@ -118,6 +118,61 @@ pub fn corpus(thorough: bool) -> Vec<Vec<u8>> {
             }
         }
     }
+    // long non-ASCII atoms (multi-byte characters straddling every small offset) as map keys, tuple and list elements,
+    // complete and cut right after the atom or inside the value that follows it (error paths quote such names)
+    {
+        let mut names: Vec<Vec<u8>> = vec![];
+        for shift in 0..4usize {
+            for unit in ["é", "€", "😀"] {
+                let mut n = "a".repeat(shift);
+                while n.len() < 44 { n.push_str(unit); }
+                names.push(n.into_bytes());
+            }
+        }
+        let mut atoms: Vec<Vec<u8>> = vec![];
+        for n in &names {
+            let mut a = vec![119u8, n.len() as u8]; a.extend_from_slice(n); atoms.push(a);
+            let mut b = vec![118u8]; b.extend_from_slice(&(n.len() as u16).to_be_bytes()); b.extend_from_slice(n); atoms.push(b);
+        }
+        for shift in 0..3usize { let mut l = vec![b'a'; shift]; l.extend(std::iter::repeat(0xE9u8).take(40)); let mut a = vec![100u8]; a.extend_from_slice(&(l.len() as u16).to_be_bytes()); a.extend_from_slice(&l); atoms.push(a.clone()); let mut b = vec![115u8, l.len() as u8]; b.extend_from_slice(&l); atoms.push(b); }
+        for a in &atoms {
+            for (pre, post) in [(&[116u8, 0, 0, 0, 1][..], &[104u8, 2, 97, 1, 97, 2][..]), (&[104, 2][..], &[108, 0, 0, 0, 1, 97, 1, 106][..]), (&[108, 0, 0, 0, 2][..], &[97, 1, 106][..]), (&[116, 0, 0, 0, 1, 97, 1][..], &[][..])] {
+                let mut b = vec![131u8];
+                b.extend_from_slice(pre);
+                b.extend_from_slice(a);
+                let after_atom = b.len();
+                b.extend_from_slice(post);
+                out.push(b.clone());
+                for cut in [after_atom, after_atom + 1, (after_atom + 2).min(b.len())] { out.push(b[..cut.min(b.len())].to_vec()); }
+                // an unknown tag inside the value: the error is raised below the long key
+                let mut bad = b[..after_atom].to_vec(); bad.extend_from_slice(&[104, 1, 200]); out.push(bad);
+            }
+        }
+    }
+    // the nesting limit: both decoders must draw it at the same depth whatever sits at the bottom
+    {
+        let leaves: Vec<Vec<u8>> = vec![
+            vec![97, 1], vec![119, 1, b'a'], vec![106],
+            vec![88, 119, 3, b'n', b'@', b'h', 0, 0, 0, 1, 0, 0, 0, 2, 0, 0, 0, 3],
+            vec![120, 119, 3, b'n', b'@', b'h', 0, 0, 0, 0, 0, 0, 0, 5, 0, 0, 0, 1],
+            vec![90, 0, 2, 119, 3, b'n', b'@', b'h', 0, 0, 0, 1, 0, 0, 0, 1, 0, 0, 0, 2],
+            vec![113, 119, 1, b'm', 119, 1, b'f', 97, 1],
+            { let mut inner = vec![0u8]; inner.extend_from_slice(&[7u8; 16]); inner.extend_from_slice(&3u32.to_be_bytes()); inner.extend_from_slice(&0u32.to_be_bytes()); inner.extend_from_slice(&[119, 1, b'm', 97, 1, 97, 2, 88, 119, 3, b'n', b'@', b'h', 0, 0, 0, 1, 0, 0, 0, 2, 0, 0, 0, 3]);
+              let mut f = vec![112u8]; f.extend_from_slice(&((inner.len() + 4) as u32).to_be_bytes()); f.extend_from_slice(&inner); f },
+            vec![121, 1, 2, 3, 4, 5, 6, 7, 8, 88, 119, 1, b'n', 0, 0, 0, 1, 0, 0, 0, 2, 0, 0, 0, 3],
+        ];
+        for d in [252usize, 253, 254, 255, 256, 257, 258] {
+            for leaf in &leaves {
+                for (pre, suf) in [(&[104u8, 1][..], &[][..]), (&[108, 0, 0, 0, 1][..], &[106u8][..]), (&[116, 0, 0, 0, 1, 97, 1][..], &[][..])] {
+                    let mut b = vec![131u8];
+                    for _ in 0..d { b.extend_from_slice(pre); }
+                    b.extend_from_slice(leaf);
+                    for _ in 0..d { b.extend_from_slice(suf); }
+                    out.push(b);
+                }
+            }
+        }
+    }
     // funs whose OldIndex / OldUniq use every integer encoding a peer may choose
     {
         use vcore::bigi::BigI;
